@@ -8,7 +8,7 @@ cd "$wt" || exit 2
 export CARGO_NET_OFFLINE=true
 meta="_seeded/meta.json"
 demo_cmd=$(python3 -c "import json;print(json.load(open('$meta'))['demo_cmd'])")
-demo_cmd=$(echo "$demo_cmd" | sed -E "s#cd +$wt +&& +##")
+demo_cmd=$(echo "$demo_cmd" | sed -E "s#cd +$wt +&& +##" | sed -E 's/ {2,}[(#].*$//')
 feat=""
 grep -q "storage" _seeded/patch.diff && feat="--features zarr,arrow,ndarray"
 demos=$(git ls-files --others --exclude-standard tests/ examples/ | tr '\n' ' ')
